@@ -38,6 +38,12 @@ macro_rules! registry {
                 _ => None,
             }
         }
+        pub fn fuzzer(id: &str) -> Option<Box<dyn crate::fuzzbridge::FuzzOne>> {
+            match id {
+                $( $id => Some(crate::fuzzbridge::make($ctor)), )*
+                _ => None,
+            }
+        }
         pub fn unbounded_is_violation(id: &str) -> bool {
             match id {
                 $( $id => $ctor.unbounded_is_violation(), )*
